@@ -11,6 +11,14 @@ SIZES_SMALL = [0, 1, 2, 7, 8, 9, 10, 11, 12, 63, 64, 100, 254, 255, 256, 257, 30
 SIZES_BIG = [4095, 16383, 16384, 16385, 65535, 65536, 70000]
 
 
+def digest_py(b):
+    a, bb = 1, 0
+    for x in b:
+        a = (a + x) % 65521
+        bb = (bb + a) % 65521
+    return [len(b), bb * 65536 + a] + list(b[:8]) + list(b[max(0, len(b) - 8):])
+
+
 def gen_frame(rng, big_ok=True, cmd_ok=True):
     r = rng.random()
     if r < 0.75 or not big_ok:
